@@ -193,12 +193,13 @@ fn forward_case(l0: usize, l1: usize) {
 }
 
 // @harness c15_forward_small
-// @props C15 C03
+// @props C15
 // @tier thorough
+// @role best_effort
 // @variant dl128_lists2
 // @features none
 // @stubbing yes
-// @timeout 3600
+// @timeout 2700
 // @mem 30
 // @functions Port::send_announce, TlvSetBuilder::add, ForwardedTLV::size, Tlv::wire_size
 // @bounds master port, provider queue of two TLVs with value lengths (6, 8), TLV types PATH_TRACE or ORGANIZATION_EXTENSION_PROPAGATE (symbolic choice), each from the parent or from another sender, path trace on/off (empty received path)
@@ -210,12 +211,13 @@ fn forward_case(l0: usize, l1: usize) {
 fn c15_forward_small() { forward_case(6, 8) }
 
 // @harness c15_forward_exact_fit
-// @props C15 C03
+// @props C15
 // @tier thorough
+// @role best_effort
 // @variant dl128_lists2
 // @features none
 // @stubbing yes
-// @timeout 3600
+// @timeout 2700
 // @mem 30
 // @functions Port::send_announce, TlvSetBuilder::add
 // @bounds as c15_forward_small with value lengths (60, 0): the first TLV's wire size equals the whole room (64) when path trace is off
@@ -227,12 +229,13 @@ fn c15_forward_small() { forward_case(6, 8) }
 fn c15_forward_exact_fit() { forward_case(60, 0) }
 
 // @harness c15_forward_second_exact_fit
-// @props C15 C03
+// @props C15
 // @tier thorough
+// @role best_effort
 // @variant dl128_lists2
 // @features none
 // @stubbing yes
-// @timeout 3600
+// @timeout 2700
 // @mem 30
 // @functions Port::send_announce, TlvSetBuilder::add
 // @bounds as c15_forward_small with value lengths (20, 36): the second TLV's wire size equals the remaining room (40) after the first
@@ -244,12 +247,13 @@ fn c15_forward_exact_fit() { forward_case(60, 0) }
 fn c15_forward_second_exact_fit() { forward_case(20, 36) }
 
 // @harness c15_forward_too_big
-// @props C15 C03
+// @props C15
 // @tier thorough
+// @role best_effort
 // @variant dl128_lists2
 // @features none
 // @stubbing yes
-// @timeout 3600
+// @timeout 2700
 // @mem 30
 // @functions Port::send_announce, TlvSetBuilder::add
 // @bounds as c15_forward_small with value lengths (62, 4): the first TLV is two octets larger than the room and must stay queued, blocking the second
@@ -263,10 +267,11 @@ fn c15_forward_too_big() { forward_case(62, 4) }
 // @harness c15_forward_dropped_uses_no_room
 // @props C15
 // @tier thorough
+// @role best_effort
 // @variant dl128_lists2
 // @features none
 // @stubbing yes
-// @timeout 3600
+// @timeout 2700
 // @mem 30
 // @functions Port::send_announce, TlvSetBuilder::add
 // @bounds as c15_forward_small with value lengths (28, 36): wire sizes 32 + 40 exceed the room (64) together, each fits alone - a dropped first TLV must not use up room
@@ -278,11 +283,12 @@ fn c15_forward_too_big() { forward_case(62, 4) }
 fn c15_forward_dropped_uses_no_room() { forward_case(28, 36) }
 
 // @harness c15_forward_exact_fit_concrete
-// @props C15 C03
+// @props C15
 // @tier thorough
+// @role best_effort
 // @variant dl128_lists2
 // @stubbing yes
-// @timeout 3600
+// @timeout 2700
 // @mem 34
 // @functions Port::send_announce, TlvSetBuilder::add, ForwardedTLV::size
 // @bounds concrete master port (fresh instance, path trace off), provider with one ORGANIZATION_EXTENSION_PROPAGATE TLV from the parent whose wire size equals the whole room (value 60 octets, room 64 at MAX_DATA_LEN 128; 956 of 960 at the real size), first value octet symbolic
